@@ -30,7 +30,9 @@ echo "demo with change           : $demo_with"
 echo "demo without change        : $demo_without"
 # 2. does the patch apply to /repo's HEAD? (check only)
 if ! git -C /repo apply --check "$D/patch.diff" 2>/dev/null; then echo "WARNING: patch does not apply cleanly to /repo HEAD"; fi
-# 3. committed harness against the scratch worktree
+# 3. committed harness against the scratch worktree (the read-only verif hook files are brought up to /repo's HEAD so
+#    that a worktree created before a later hook commit still builds; they are restored afterwards)
+cp /repo/src/verif.rs "$W/src/verif.rs"; cp /repo/src/react/verif_access.rs "$W/src/react/verif_access.rs"
 rm -rf "$H"; mkdir -p "$H"
 git -C "$ROOT" archive HEAD harness known_findings.json | tar -x -C "$H"
 sed -i "s|path = \"/repo\"|path = \"$W\"|" "$H/harness/Cargo.toml"
@@ -66,4 +68,5 @@ json.dump({"property_broken":p,"name":name,"history":hist,
  "verif_commit":head,
  "quick_checks_reporting_violation":hits.split(),"quick_checks_inconclusive":inc.split()},open(f"seeded/{name}/meta.json","w"),indent=1)
 PY
+git -C "$W" checkout -- src/verif.rs src/react/verif_access.rs
 rm -rf "$H"
